@@ -54,7 +54,7 @@ func offers(ae, coding string) bool {
 
 func main() {
 	rep := kit.NewReport("C02", "exploration",
-		"4 site variants (static, browse, browse+servearchive, address with path prefix) x request targets of 1..3 segments over an 18-symbol adversarial segment alphabet (x trailing slash x doubled leading slash) x {5 queries x html/json, 9 Accept-Encoding values (with zero qualities), HEAD}; every token found in the decoded/unarchived body must belong to the file the cleaned path names, its directory index, an accepted sibling, or (archives) a non-hidden file below it; redirects must start with exactly one '/'; distinct_nontrivial = outcome classes")
+		"6 site variants (static, browse, browse+servearchive, address with path prefix, a Casketfile named like an index page, an earlier site on the listener rooted elsewhere) x request targets of 1..3 segments over an 18-symbol adversarial segment alphabet (x trailing slash x doubled leading slash) x {5 queries x html/json, 9 Accept-Encoding values (with zero qualities), HEAD}; every token found in the decoded/unarchived body must belong to the file the cleaned path names, its directory index, an accepted sibling, or (archives) a non-hidden file below it; redirects must start with exactly one '/'; distinct_nontrivial = outcome classes")
 	kit.Init()
 	kit.Log.Off.Store(true)
 	base := kit.TempDir("c02")
@@ -95,17 +95,24 @@ func main() {
 	gen(nil)
 	targets = append(targets, "/")
 	rep.Set("targets", len(targets))
-	variants := []struct{ name, addr, body, prefix string }{
-		{"static", "a.test:8080", "", ""},
-		{"browse", "a.test:8080", "\tbrowse\n", ""},
-		{"browse+archive", "a.test:8080", "\tbrowse / {\n\t\tservearchive\n\t}\n", ""},
-		{"prefix+browse+archive", "a.test:8080/sub", "\tbrowse / {\n\t\tservearchive\n\t}\n", "/sub"},
+	// hidden: where the Casketfile lies inside the root; pre: sites declared before the one under test
+	elsewhere := fmt.Sprintf("other.test:8080 {\n\troot %s\n}\n", filepath.Join(base, "outside"))
+	variants := []struct{ name, addr, body, prefix, hidden, pre string }{
+		{"static", "a.test:8080", "", "", "Casketfile", ""},
+		{"browse", "a.test:8080", "\tbrowse\n", "", "Casketfile", ""},
+		{"browse+archive", "a.test:8080", "\tbrowse / {\n\t\tservearchive\n\t}\n", "", "Casketfile", ""},
+		{"prefix+browse+archive", "a.test:8080/sub", "\tbrowse / {\n\t\tservearchive\n\t}\n", "/sub", "Casketfile", ""},
+		// the configuration file has the name of an index page
+		{"casketfile-named-like-an-index/browse+archive", "a.test:8080", "\tbrowse / {\n\t\tservearchive\n\t}\n", "", "dirx/index.html", ""},
+		// an earlier site on the same listener whose root lies elsewhere
+		{"second-site/browse+archive", "a.test:8080", "\tbrowse / {\n\t\tservearchive\n\t}\n", "", "Casketfile", elsewhere},
 	}
 	queries := []string{"", "archive=zip", "archive=tar.gz", "sort=size&order=desc", "limit=1"}
 	aes := []string{"gzip", "br", "zstd, gzip", "identity", "gzip;q=0", "identity, gzip;q=0", "br;q=0, gzip", "zstd;q=0.0, br;q=0", "gzip;q=0.5"}
 	for _, v := range variants {
-		cf := fmt.Sprintf("%s {\n\troot %s\n%s}\n", v.addr, root, v.body)
-		l, err := kit.Load(cf, filepath.Join(root, "Casketfile"))
+		cf := v.pre + fmt.Sprintf("%s {\n\troot %s\n%s}\n", v.addr, root, v.body)
+		hidden, hiddenBase := v.hidden, path.Base(v.hidden)
+		l, err := kit.Load(cf, filepath.Join(root, filepath.FromSlash(hidden)))
 		if err != nil {
 			rep.Broken("load: %v", err)
 		}
@@ -165,7 +172,7 @@ func main() {
 				allowed := map[string]bool{}
 				rel := strings.TrimPrefix(clean, "/")
 				addFile := func(f string) {
-					if _, ok := tokens[f]; ok && f != "Casketfile" {
+					if _, ok := tokens[f]; ok && f != hidden {
 						allowed[f] = true
 						for _, ext := range []string{".gz", ".br", ".zst"} {
 							if _, ok := tokens[f+ext]; ok && offers(q.ae, map[string]string{".gz": "gzip", ".br": "br", ".zst": "zstd"}[ext]) {
@@ -181,7 +188,7 @@ func main() {
 					addFile(path.Join(rel, "index.html"))
 					if archives && strings.HasPrefix(q.query, "archive=") {
 						for f := range tokens {
-							if f != "Casketfile" && f != "OUTSIDE" && (rel == "" || strings.HasPrefix(f, rel+"/")) {
+							if f != hidden && f != "OUTSIDE" && (rel == "" || strings.HasPrefix(f, rel+"/")) {
 								allowed[f] = true
 							}
 						}
@@ -202,7 +209,7 @@ func main() {
 				hiddenName := false
 				if members, ok := kit.Unarchive([]byte(text)); ok {
 					for name, content := range members {
-						if strings.Contains(name, "Casketfile") {
+						if strings.HasSuffix(strings.TrimPrefix(name, "/"), hidden) {
 							hiddenName = true
 							found = append(found, "member:"+name)
 						}
@@ -212,10 +219,10 @@ func main() {
 					found = kit.FindTokens(text, tokens)
 					ct := rec.Snap.Get("Content-Type")
 					// a listing entry for the hidden file (its name in the request path itself does not count)
-					if browse && rec.Status == 200 && ((strings.HasPrefix(ct, "text/html") && strings.Contains(text, "href=\"./Casketfile\"")) ||
-						(strings.HasPrefix(ct, "application/json") && strings.Contains(text, "\"Name\":\"Casketfile\""))) {
+					if browse && rec.Status == 200 && ((strings.HasPrefix(ct, "text/html") && strings.Contains(text, "href=\"./"+hiddenBase+"\"") && path.Dir("/"+hidden) == clean) ||
+						(strings.HasPrefix(ct, "application/json") && strings.Contains(text, "\"Name\":\""+hiddenBase+"\"") && path.Dir("/"+hidden) == clean)) {
 						hiddenName = true
-						found = append(found, "listing-names:Casketfile")
+						found = append(found, "listing-names:"+hiddenBase)
 					}
 				}
 				var bad []string
@@ -247,7 +254,7 @@ func main() {
 					switch {
 					case f == "OUTSIDE":
 						rep.Violation("C02/outside-root-content", "content of a file outside the root was returned", mk())
-					case f == "Casketfile":
+					case f == hidden:
 						where := "direct"
 						if strings.HasPrefix(q.query, "archive=") {
 							where = "archive"
